@@ -10,13 +10,15 @@ def gen_histories(ctx, n, family, label):
             resources = [[rng.choice([1, 2, 3, 3]), rng.choice([1, 1, 2, 3]), 0]]
             kinds = {"sleep": 3, "request": 4, "release": 2, "cancel": 1, "withexit": 2, "ryield": 4, "return": 0.3}
         else:
-            kc = rng.choice([4, 4, 5, 6, 7])
+            kc = rng.choice([4, 4, 5, 6, 6, 7])
             if kc == 4:
                 cap = rng.choice([2, 3, 5])
                 resources = [[4, cap, rng.choice([0, 1, min(2, cap)])]]
             else:
-                resources = [[kc, rng.choice([1, 2, 3, 1000000]), 0]]
+                resources = [[kc, rng.choice([1, 2, 3, 1000000, 1000000]), 0]]
             kinds = {"sleep": 2, "put": 4, "get": 4, "cancel": 1.5, "ryield": 4, "return": 0.3}
+            if kc == 6 and rng.random() < 0.5:
+                kinds = {"sleep": 1, "put": 7, "get": 3, "cancel": 0.5, "ryield": 3, "return": 0.2}     # let the heap grow
         gens.append({"gen": {"seed": rng.randrange(1 << 30), "resources": resources, "nproc": rng.choice([2, 3, 4, 5]),
                              "max_procs": 5, "max_ops": rng.choice([5, 7]), "max_events": 60, "max_plan": 1,
                              "delays": [0, 1, 1, 2], "catch": [1], "kinds": kinds, "plan_kinds": {"run": 1}}})
